@@ -234,10 +234,24 @@ def inflateArr (c : Array UInt8) : Option (Array UInt8) :=
 
 def inflate (c : Bytes) : Option Bytes := (inflateArr c.toArray).map Array.toList
 
-/-- what `no_header_decompress` checks: the stream inflates to exactly `n` bytes -/
+/-- what `no_header_decompress` checks on the encodings the theorems are about: the stream
+inflates to exactly `n` bytes (`inflatesTo_stored`) -/
 def inflatesTo (c : Bytes) (n : Nat) : Option Bytes :=
   match inflate c with
   | some d => if d.length = n then some d else none
+  | none => none
+
+/-- `no_header_decompress(c, out)` with `out` a zeroed buffer of `n` bytes is ONE `inflate` call with
+`avail_out = n`, accepted iff it returns `Z_STREAM_END`: the stream has to end inside the buffer.
+A stream that yields more than `n` bytes is rejected; one that yields FEWER is accepted, and the
+bytes of the buffer behind the stream's output are whatever the inflater left there (zlib-rs copies
+matches in chunks and may write past the logical end of its output inside the space it was given:
+observed, not specified).  This variant zero-fills them; the damaged-entry family (`mut`) compares
+it with `inflatesTo` and skips the cases where the two differ — those whose answer depends on the
+unspecified bytes. -/
+def inflatesToFill (c : Bytes) (n : Nat) : Option Bytes :=
+  match inflate c with
+  | some d => if d.length ≤ n then some (d ++ List.replicate (n - d.length) 0) else none
   | none => none
 
 end Physis.Inflate
